@@ -246,26 +246,34 @@ def gated_numbering(ctx):
                  'sm.rotate.swapped', 'wal.close.pre', 'sm.rotate.closed', 'sm.flush.table.renamed']:
         for imm in (False, True):
             jobs.append((site, imm, []))
-    for site, imm, extra in jobs:
-        if True:
-            d = ctx.sub(f"c08-gated-{site}-{int(imm)}-{'-'.join(extra)}")
-            hooks = os.path.join(d, 'hooks.ndjson')
-            for f in (hooks,):
-                if os.path.exists(f):
-                    os.remove(f)
-            import shutil
-            shutil.rmtree(os.path.join(d, 'db'), ignore_errors=True)
-            args = [ctx.kvh(), 'lin-gated', '-dir', os.path.join(d, 'db'), '-out', os.path.join(d, 'trace.ndjson'), '-site', site] + (['-imm'] if imm else []) + extra
-            p = subprocess.run(args, capture_output=True, text=True, timeout=120, env=dict(os.environ, VERIF_TRACE=hooks))
-            if p.returncode == 5 or not os.path.exists(hooks):
-                continue
-            n += 1
-            ok, hw, st, outp = tlc_trace(ctx, 'TRACE_StoreProto', 'TRACE_StoreProto.cfg', hooks, timeout=300, tag=f"c08-gated-{site}-{int(imm)}-{'-'.join(extra)}")
-            if not ok:
-                lines = open(hooks).read().splitlines()
-                ev = json.loads(lines[hw - 1]) if hw and hw <= len(lines) else {}
-                ctx.violations.append({'what': f"flush path parked at {site}: the numbering rules are broken at event {ev.get('site')}(a={ev.get('a')}, b={ev.get('b')})",
-                                       'replay': save_replay(ctx, 'store-gated', {'site': site, 'imm': imm, 'extra': extra})})
+    def one(job):
+        site, imm, extra = job
+        d = ctx.sub(f"c08-gated-{site}-{int(imm)}-{'-'.join(extra)}")
+        hooks = os.path.join(d, 'hooks.ndjson')
+        if os.path.exists(hooks):
+            os.remove(hooks)
+        import shutil
+        shutil.rmtree(os.path.join(d, 'db'), ignore_errors=True)
+        args = [ctx.kvh(), 'lin-gated', '-dir', os.path.join(d, 'db'), '-out', os.path.join(d, 'trace.ndjson'), '-site', site] + (['-imm'] if imm else []) + extra
+        p = subprocess.run(args, capture_output=True, text=True, timeout=120, env=dict(os.environ, VERIF_TRACE=hooks))
+        if p.returncode == 5 or not os.path.exists(hooks):
+            return None
+        ok, hw, st, outp = tlc_trace(ctx, 'TRACE_StoreProto', 'TRACE_StoreProto.cfg', hooks, timeout=300, tag=f"c08-gated-{site}-{int(imm)}-{'-'.join(extra)}")
+        if ok:
+            return True
+        lines = open(hooks).read().splitlines()
+        ev = json.loads(lines[hw - 1]) if hw and hw <= len(lines) else {}
+        return {'what': f"flush path parked at {site}: the numbering rules are broken at event {ev.get('site')}(a={ev.get('a')}, b={ev.get('b')})",
+                'job': {'site': site, 'imm': imm, 'extra': extra}}
+    ctx.kvh()
+    with cf.ThreadPoolExecutor(max_workers=6) as ex:
+        results = list(ex.map(one, jobs))
+    for r in results:
+        if r is None:
+            continue
+        n += 1
+        if r is not True:
+            ctx.violations.append({'what': r['what'], 'replay': save_replay(ctx, 'store-gated', r['job'])})
     if n < 10:
         raise Infra(f'only {n} gated numbering scenarios ran')
     ctx.traces += n
